@@ -8,6 +8,7 @@ import (
 	"bytes"
 	"encoding/json"
 	"fmt"
+	"strconv"
 	"strings"
 
 	"github.com/jrhy/mast"
@@ -94,6 +95,10 @@ type Config struct {
 	// DefaultMarshal: RemoteConfig.Marshal / Unmarshal are left nil (the library's own defaults; no marshal
 	// call counting or fault injection in such a configuration)
 	DefaultMarshal bool
+	// AltKeyMarshal: struct keys (SKey) are marshaled by the configured marshaler in a form of its own
+	// ("%08d|%s" of B and A) instead of JSON: with KeyCompare left nil, order and layer of such keys are
+	// defined by *that* form
+	AltKeyMarshal bool
 	// TwoSlots: the alphabet works on two tree slots (clone either way, modify and persist both, load kept
 	// roots into the second): the structural monitors then also judge versions persisted by trees that
 	// share in-memory nodes with another live tree
@@ -190,6 +195,28 @@ var (
 		},
 		Dec: decInto[SKey]}
 )
+
+// AltKeyBytes / AltKeyParse: the non-JSON form of struct keys under Config.AltKeyMarshal.
+func AltKeyBytes(k SKey) []byte { return []byte(fmt.Sprintf("%08d|%s", k.B, k.A)) }
+
+func AltKeyParse(b []byte) (SKey, error) {
+	s := string(b)
+	i := strings.IndexByte(s, '|')
+	if i < 0 {
+		return SKey{}, fmt.Errorf("alt key: %q", s)
+	}
+	n, err := strconv.Atoi(s[:i])
+	if err != nil {
+		return SKey{}, err
+	}
+	return SKey{A: s[i+1:], B: n}, nil
+}
+
+// KSStructAlt: struct keys ordered and layered by their AltKeyBytes.
+var KSStructAlt = &ref.KeySpec{Name: "struct-alt",
+	Cmp:   func(a, b interface{}) int { return bytes.Compare(AltKeyBytes(a.(SKey)), AltKeyBytes(b.(SKey))) },
+	Layer: func(k interface{}, bf uint) uint8 { return ref.BlobLayer(AltKeyBytes(k.(SKey)), bf) },
+	Dec:   func(raw []byte) (interface{}, error) { return AltKeyParse(raw) }}
 
 func a64(k interface{}) int64 { return k.(int64) }
 
